@@ -36,3 +36,21 @@ print(len(out), 'callees with a uniform convention')
 names = sorted(defs)
 json.dump(names, open(os.path.join(V, 'dosa', 'known_functions.json'), 'w'), indent=0)
 print(len(names), 'known function / class names')
+
+# module- and class-level names assigned in the pinned tree: a constant whose name is not in this list is new and is read as its value
+consts = set()
+for fn in sorted(os.listdir(PKG)):
+    if fn.endswith('.py'):
+        t = ast.parse(open(os.path.join(PKG, fn)).read())
+
+        def scan(body):
+            for st in body:
+                if isinstance(st, (ast.Assign, ast.AnnAssign)):
+                    for tg in (st.targets if isinstance(st, ast.Assign) else [st.target]):
+                        if isinstance(tg, ast.Name):
+                            consts.add(tg.id)
+                elif isinstance(st, ast.ClassDef):
+                    scan(st.body)
+        scan(t.body)
+json.dump(sorted(consts), open(os.path.join(V, 'dosa', 'known_constants.json'), 'w'), indent=0)
+print(len(consts), 'known module/class level names')
